@@ -9,9 +9,14 @@ SIMPLE = [
     ("y = o.f", {"field-read"}), ("x = o.g", {"field-read"}), ("y = q.f", {"field-read", "other-object"}),
     ("p = o", {"alias"}), ("p.f = 9", {"alias", "field-write"}), ("y = p.f", {"alias", "field-read"}),
     ("y = pick(x)", {"call"}), ("x = pick(6)", {"call"}), ("y = add1(y)", {"call", "binop"}),
+    ("y = deep(x).b.c.v", {"returned-nested-object"}), ("y = shallow(x).b.v", {"returned-nested-object"}),
+    ("y = second(0, x)", {"call", "second-argument"}), ("x = o.f - y", {"binop", "field-read"}),
 ]
-QUICK = [0, 1, 3, 4, 6, 7, 9, 10, 12, 13, 14, 15, 16]
-HELPERS = "class Obj:\n    pass\ndef pick(a):\n    return a\ndef add1(b):\n    r = b + 1\n    return r\n"
+QUICK = [0, 1, 3, 4, 6, 7, 9, 10, 12, 13, 14, 15, 16, 18, 19, 20]
+HELPERS = ("class Obj:\n    pass\ndef pick(a):\n    return a\ndef add1(b):\n    r = b + 1\n    return r\ndef second(m, n):\n    return n\n"
+           "def deep(k):\n    c = Obj()\n    c.v = 1\n    b = Obj()\n    b.c = c\n    a = Obj()\n    a.b = b\n    c.v = k\n    return a\n"
+           "def inner_h(q):\n    return q + 1\ndef nest(p):\n    return inner_h(p)\n"
+           "def shallow(k):\n    b = Obj()\n    b.v = 1\n    a = Obj()\n    a.b = b\n    b.v = k\n    return a\n")
 
 
 def needs_p(stmts):
@@ -89,6 +94,26 @@ def programs(max_size, quick):
                 if firstp is None or body[firstp] != "p = o":
                     continue
             yield body, feats, size
+    for body, feats in EXTRA:
+        yield body, set(feats), len(body) + 1
+
+
+EXTRA = [
+    # hand-written shapes outside the enumerated alphabet (each is a body in the same AST form)
+    ([("if", ["x = 12"], None), ("if", ["y = 25"], ["y = 5"]), "x = x * y"], {"binop", "two-valued-operands"}),
+    ([("if", ["x = 12"], None), ("if", ["y = 25"], ["y = 5"]), "y = x - y"], {"binop", "two-valued-operands"}),
+    ([("if", ["x = 3"], ["x = 4"]), ("if", ["y = 10"], ["y = 20"]), "y = x + y"], {"binop", "two-valued-operands"}),
+    (["o.f = 0", "p = o", ("if", ["p.f = 1"], None), "y = o.f"], {"alias", "field-write", "if"}),
+    (["o.f = 0", "p = o", ("if", ["p.f = 1"], ["p.f = 2"]), "y = o.f"], {"alias", "field-write", "if-else"}),
+    (["o.f = 0", "p = o", ("if", ["o.f = 1"], None), "y = p.f"], {"alias", "field-write", "if"}),
+    (["x = nest(100)", "y = nest(200)"], {"nested-helper", "two-sites"}),
+    (["x = nest(100)", "y = nest(200)", "x = nest(300)"], {"nested-helper", "three-sites"}),
+    (["x = nest(100)", "y = nest(200)", "x = nest(300)", "y = nest(400)"], {"nested-helper", "four-sites"}),
+    (["y = x - x"], {"binop", "zero-result"}),
+    (["x = 5", "y = x - 5"], {"binop", "zero-result"}),
+    (["y = x * 0"], {"binop", "zero-result"}),
+    (["x = pick(1)", "y = pick(2)", "x = pick(3)"], {"call", "three-sites"}),
+]
 
 
 def source(name, body):
